@@ -36,7 +36,14 @@ def activate():
         raise HarnessError("batchie imported from %s, not from %s" % (f, SRC))
     import logging
 
-    logging.disable(logging.CRITICAL)
+    if os.environ.get("VERIF_LOGGING") == "debug":
+        # (process-configuration sweep) the package logs at DEBUG level into a sink instead of being silenced
+        lg = logging.getLogger("batchie")
+        lg.setLevel(logging.DEBUG)
+        lg.addHandler(logging.NullHandler())
+        lg.propagate = False
+    else:
+        logging.disable(logging.CRITICAL)
     import warnings
 
     warnings.filterwarnings("ignore")
